@@ -568,7 +568,7 @@ class FieldValueComponentStringEnum(FieldValueComponentKeyValueBase):
         try:
             parser.parse_parsable('value', cls._get_value_type())
         except InvalidValue as e:
-            six.raise_from(InvalidValue(six.ensure_text(e.value, 'ascii', 'replace'), cls, 'value'), e)
+            six.raise_from(InvalidValue(six.ensure_text(bytes(e.value), 'ascii', 'replace'), cls, 'value'), e)
 
     def _get_value_as_simple_type(self):
         return self.value.value.code
@@ -668,7 +668,7 @@ class FieldsJson(FieldValueBase):
         try:
             raw_values = json.loads(parsable.decode('ascii'), object_pairs_hook=collections.OrderedDict)
         except ValueError as e:  # json.decoder.JSONDecodeError is derived from ValueError
-            six.raise_from(InvalidValue(six.ensure_text(parsable, 'ascii', 'replace'), cls, 'value'), e)
+            six.raise_from(InvalidValue(six.ensure_text(bytes(parsable), 'ascii', 'replace'), cls, 'value'), e)
 
         attr_fields_dict = attr.fields_dict(cls)
 
@@ -679,7 +679,7 @@ class FieldsJson(FieldValueBase):
                 if validator_class.get_canonical_name() in raw_values
             }), len(parsable)
         except (TypeError, AttributeError) as e:
-            six.raise_from(InvalidValue(six.ensure_text(parsable, 'ascii', 'replace'), cls, 'value'), e)
+            six.raise_from(InvalidValue(six.ensure_text(bytes(parsable), 'ascii', 'replace'), cls, 'value'), e)
 
     def compose(self):
         attr_fields_dict = attr.fields_dict(type(self))
@@ -1015,7 +1015,7 @@ class FieldValueStringEnum(FieldValueSingleComplexBase):
         try:
             value = cls._get_value_type().parse_exact_size(parsable)
         except InvalidValue as e:
-            six.raise_from(InvalidValue(six.ensure_text(parsable, 'ascii', 'replace'), cls, 'value'), e)
+            six.raise_from(InvalidValue(six.ensure_text(bytes(parsable), 'ascii', 'replace'), cls, 'value'), e)
 
         return cls(value), len(parsable)
 
